@@ -287,13 +287,13 @@ RootType(S, kind) == CASE kind = "query" -> S.query [] kind = "mutation" -> S.mu
 \* Response: data is a Value or [k |-> "absent"]; reqerr TRUE = request error
 ExecuteOp(S, D, op, inputs, outs, dev) ==
   LET vv == VarValues(S, op.vdefs, inputs) IN
-  IF vv.verdict = "reject"
-  THEN [data |-> [k |-> "absent"], reqerr |-> TRUE, unspec |-> FALSE,
+  IF vv.verdict # "accept"
+  THEN [data |-> [k |-> "absent"], reqerr |-> (vv.verdict = "reject"), unspec |-> (vv.verdict = "unspec"),
         errs |-> <<>>, opt |-> <<>>, calls |-> <<>>, tcalls |-> <<>>, esc |-> <<>>, all |-> <<>>, vvals |-> <<>>]
   ELSE
     LET E == [S |-> S, frags |-> FragMap(D), V |-> vv.vals, outs |-> outs, dev |-> dev]
         r == ExecSel(E, RootType(S, op.kind), <<op.sel>>, RootSrc, <<>>)
-    IN [data |-> r.val, reqerr |-> FALSE, unspec |-> (vv.verdict = "unspec"),
+    IN [data |-> r.val, reqerr |-> FALSE, unspec |-> FALSE,
         errs |-> r.errs, opt |-> r.opt, calls |-> r.calls, tcalls |-> r.tcalls, esc |-> r.esc,
         all |-> r.all,
         vvals |-> LET ns == SetToSeq(DOMAIN vv.vals)
